@@ -69,19 +69,24 @@ OPS = [
     # taken once, inside an enclosing loop that also first-assigns a variable; lists whose elements own memory
     ["if x > 5:", "    L.append(7)", "    L.append(8)", "elif x > 0:", "    for i in range(len(L)):", "        mon.write(L[i])", "else:", "    mon.write(L[len(L) - 1])"],
     ["if x < 0:", "    L.append(7)", "    L.append(8)", "    L.append(9)", "else:", "    mon.write(L[len(L) - 1])", "    mon.write(L[-len(L)])"],
-    ["M3 = [i * 2 for i in range(len(L))]", "for j in range(1):", "    nv = j", "    for i in range(len(L)):", "        if len(L) < 30:", "            L.append(i)", "        x = x + M3[i]"],
+    ["M3 = [i * 2 for i in range(len(L))]", "for j in range(1):", "    nv = j", "    for i in range(len(L)):", "        if len(L) < 30:", "            L.append(i)", "        x = x + M3[i]", "mon.write(len(M3))"],
     ["k = 0", "while k < 2:", "    k += 1", "    nw = k", "    for i in range(len(L)):", "        if len(L) < 40:", "            L.append(L[i])"],
     ['N2 = ["x", "y", "z"]', "N = N2", "mon.write(N[0])", "mon.write(len(N))"],
     ["N = labels(x)", "mon.write(N[0])", "mon.write(N[-1])"],
     ['N.append("q")', "mon.write(N[-1])", "mon.write(len(N))"],
     ["NN = N", "mon.write(NN[1])", 'N = ["r", "s"]', "mon.write(NN[1])"],
+    # the list changes only through helpers defined before it exists; lengths minus a constant that go negative
+    ["if len(L) > 1:", "    drop(L[0])", "for i in range(len(L)):", "    x = x + L[i]"],
+    ["grow(1)", "for i in range(len(L)):", "    x = x + L[i]"],
+    ["for i in range(len(L) - 4):", "    x = x + L[i]", "j = 0", "while j < len(L) - 5:", "    j += 1", "mon.write(j)"],
+    ["if len(L) - 9 < 0:", "    mon.write(1)", "mon.write(len(L) - 9)"],
     # characters of a string by (negative) index
     ["mon.write(s[-1])", "mon.write(s[0])"],
     ["mon.write(s[len(s) - 1])", "mon.write(s[-len(s)])", "ch = s[-1]", "mon.write(ch)"],
 ]
-DEFS = ["def mk(n):", "    return [n, n + 1]", "def labels(n):", '    return ["a" + str(n), "b", "c"]']
+DEFS = ["def mk(n):", "    return [n, n + 1]", "def labels(n):", '    return ["a" + str(n), "b", "c"]', "def drop(v):", "    L.remove(v)", "def grow(v):", "    L.append(v)"]
 CORE = [0, 2, 3, 5, 9, 10, 11, 12, 13]
-CORE3 = [0, 1, 2, 3, 5, 9, 10, 11, 12, 13, 18, 20, 21, 23, 25, 28, 29, 31, 33, 34]  # thorough: all k = 3 histories over these
+CORE3 = [0, 1, 2, 3, 5, 9, 10, 11, 12, 13, 18, 20, 21, 23, 25, 28, 29, 31, 33, 34, 37, 38, 39]  # thorough: all k = 3 histories over these
 OBS = ["mon.write(x)", "mon.write(len(L))", "mon.write(L[0])", "mon.write(L[-1])"]
 
 
